@@ -332,5 +332,7 @@ def run(ctx):
     check_effect_tables(ctx, "C10")
     from ..rules_common import check_presence_tests, ARG_SCOPE
     check_presence_tests(ctx, "C10.PRESENCE", classes=ARG_SCOPE.get("C10", []))
+    from ..rules_common import check_param_rebinding
+    check_param_rebinding(ctx, "C10.PARAMS", classes=ARG_SCOPE.get("C10", []))
 
 
